@@ -49,27 +49,27 @@ UHTTPS == <<72, 84, 84, 80, 83>>
 
 NumericTexts == <<T4, T4b, T6, TR1, TR2, TSock, TUnix>>
 
-L(toks) == <<JoinWith(toks, <<44, 32>>)>>       \* one field line "a, b, c"
+Ln(toks) == <<JoinWith(toks, <<44, 32>>)>>       \* one field line "a, b, c"
 
-XffFull == {<<>>, L(<<T4>>), L(<<T6>>), L(<<THost>>), L(<<TObs>>), L(<<T5>>), L(<<<<>>>>), L(<<TR1>>),
-            L(<<T4, T4b>>), L(<<T4, THost>>), L(<<THost, T4>>), L(<<T4, <<>>>>), L(<<T4, TObs>>),
-            L(<<T4, TR1>>), L(<<T4, T6, TR1, TR2>>), L(<<THost, TR1>>), L(<<TR1, TR2>>), L(<<TR2, TR1, TR1>>),
-            L(<<T4, TR1, T4b>>), <<T4, T4b>>, <<T4b \o <<44>> \o T4, TR1>>, <<T4, <<>>>>}
+XffFull == {<<>>, Ln(<<T4>>), Ln(<<T6>>), Ln(<<THost>>), Ln(<<TObs>>), Ln(<<T5>>), Ln(<<<<>>>>), Ln(<<TR1>>),
+            Ln(<<T4, T4b>>), Ln(<<T4, THost>>), Ln(<<THost, T4>>), Ln(<<T4, <<>>>>), Ln(<<T4, TObs>>),
+            Ln(<<T4, TR1>>), Ln(<<T4, T6, TR1, TR2>>), Ln(<<THost, TR1>>), Ln(<<TR1, TR2>>), Ln(<<TR2, TR1, TR1>>),
+            Ln(<<T4, TR1, T4b>>), <<T4, T4b>>, <<T4b \o <<44>> \o T4, TR1>>, <<T4, <<>>>>}
 XriFull == {<<>>, <<T4b>>, <<T6>>, <<THost>>, <<TObs>>, <<<<>>>>, <<T4b, T6>>, <<TR1>>}
-ProtoFull == {<<>>, <<HTTP>>, <<HTTPS>>, <<FTP>>, <<UHTTPS>>, <<<<>>>>, L(<<HTTPS, HTTP>>), L(<<HTTP, HTTPS>>),
-              L(<<HTTPS, FTP>>), <<HTTP, HTTPS>>}
+ProtoFull == {<<>>, <<HTTP>>, <<HTTPS>>, <<FTP>>, <<UHTTPS>>, <<<<>>>>, Ln(<<HTTPS, HTTP>>), Ln(<<HTTP, HTTPS>>),
+              Ln(<<HTTPS, FTP>>), <<HTTP, HTTPS>>}
 
 NoHdr == [xff |-> <<>>, xri |-> <<>>, xs |-> <<>>, xfp |-> <<>>]
 FullCombos == {[NoHdr EXCEPT !.xff = a, !.xri = b] : a \in XffFull, b \in XriFull}
               \cup {[NoHdr EXCEPT !.xs = a, !.xfp = b] : a \in ProtoFull, b \in ProtoFull}
-              \cup {[xff |-> L(<<T4>>), xri |-> <<T4b>>, xs |-> <<HTTPS>>, xfp |-> <<HTTP>>]}
+              \cup {[xff |-> Ln(<<T4>>), xri |-> <<T4b>>, xs |-> <<HTTPS>>, xfp |-> <<HTTP>>]}
 SmallCombos == {NoHdr,
-                [NoHdr EXCEPT !.xff = L(<<T4>>)], [NoHdr EXCEPT !.xri = <<T4b>>],
-                [NoHdr EXCEPT !.xff = L(<<T4, TR1>>), !.xfp = <<HTTPS>>],
-                [NoHdr EXCEPT !.xff = L(<<THost>>), !.xs = <<FTP>>],
+                [NoHdr EXCEPT !.xff = Ln(<<T4>>)], [NoHdr EXCEPT !.xri = <<T4b>>],
+                [NoHdr EXCEPT !.xff = Ln(<<T4, TR1>>), !.xfp = <<HTTPS>>],
+                [NoHdr EXCEPT !.xff = Ln(<<THost>>), !.xs = <<FTP>>],
                 [NoHdr EXCEPT !.xri = <<TObs>>, !.xs = <<HTTPS>>],
-                [NoHdr EXCEPT !.xff = L(<<TR1, TR2>>)],
-                [xff |-> L(<<T6>>), xri |-> <<T4b>>, xs |-> <<HTTP>>, xfp |-> <<HTTPS>>]}
+                [NoHdr EXCEPT !.xff = Ln(<<TR1, TR2>>)],
+                [xff |-> Ln(<<T6>>), xri |-> <<T4b>>, xs |-> <<HTTP>>, xfp |-> <<HTTPS>>]}
 Combos == IF ComboSel = 1 THEN FullCombos ELSE SmallCombos
 
 Cfgs == IF CfgSel = 2 THEN {[sock |-> TSock, proto |-> HTTP, trusted |-> <<TR1, TR2>>, numeric |-> NumericTexts]}
